@@ -165,10 +165,13 @@ func runCase(t *testing.T, run *core.Run, name string, idx int, rng *rand.Rand) 
 
 // bigBlock: one height with more than 5000 transactions (the page size of the indexer's readers), committed and then served
 // from the archive: the served block must carry every transaction and re-validate on a fresh node.
-func bigBlock(t *testing.T, run *core.Run, name string, rng *rand.Rand) {
-	const nTx = 5003
+//
+// fullBlock (same driver): a block size of header allowance + 200 kB and a mempool backlog of 1000 small sends: the honest
+// proposer fills the block to the limit of the state machine (hundreds of transactions, so that the framing bytes of the
+// serialized block add up); peers, archive readers and a fresh node must accept exactly that block.
+func bigBlock(t *testing.T, run *core.Run, name string, rng *rand.Rand, nTx int, blockSize uint64, full bool) {
 	w, err := node.NewWorld(rng, node.WorldOpts{Nodes: 2, GenesisVals: 3, Users: 4, UserFunds: 50_000_000_000, Weights: map[string]int{"send": 1},
-		Params: func(p *fsm.Params, r *rand.Rand) { p.Consensus.BlockSize = 8 << 20 },
+		Params: func(p *fsm.Params, r *rand.Rand) { p.Consensus.BlockSize = blockSize },
 		Tweak: func(c *lib.Config) {
 			c.MempoolConfig.MaxTransactionCount, c.MempoolConfig.MaxTotalBytes = 20000, 64<<20
 		}})
@@ -202,14 +205,25 @@ func bigBlock(t *testing.T, run *core.Run, name string, rng *rand.Rand) {
 	}
 	rec, err := ch.Step(0, nil, nil)
 	if err != nil {
-		fail("honest-proposal-rejected", h, map[string]any{"error": err.Error(), "which": "big block"})
+		fail("honest-proposal-rejected", h, map[string]any{"error": err.Error(), "which": "big block", "full": full})
 		return
 	}
 	included := len(rec.Block.Transactions)
 	run.Count("big_block_transactions_included", int64(included))
-	if included <= 5000 {
+	if !full && included <= 5000 {
 		run.Inconclusive("%s: the big block holds only %d transactions (need > 5000)", name, included)
 		return
+	}
+	if full {
+		sum := 0
+		for _, tx := range rec.Block.Transactions {
+			sum += len(tx)
+		}
+		run.Count("full_block_transaction_bytes", int64(sum))
+		if included >= nTx || included < 400 || uint64(sum)+400 < blockSize-lib.MaxBlockHeaderSize {
+			run.Inconclusive("%s: the block is not a full one: %d of %d transactions, %d bytes of %d", name, included, nTx, sum, blockSize-lib.MaxBlockHeaderSize)
+			return
+		}
 	}
 	if _, err := ch.Step(1, nil, nil); err != nil {
 		t.Fatalf("%s: block after the big one: %v", name, err)
@@ -255,7 +269,10 @@ func TestCheck(t *testing.T) {
 	run.Sharded(n+1, func(i int) {
 		if i == n {
 			if name := "bigblock/0"; run.Want(name) {
-				bigBlock(t, run, name, run.Rand(name))
+				bigBlock(t, run, name, run.Rand(name), 5003, 8<<20, false)
+			}
+			if name := "fullblock/0"; run.Want(name) {
+				bigBlock(t, run, name, run.Rand(name), 1000, lib.MaxBlockHeaderSize+200_000, true)
 			}
 			return
 		}
